@@ -186,7 +186,17 @@ func CheckC04(p *Program, o *Outcome) []Fail {
 		cs = append(cs, c)
 	}
 	sort.Strings(cs)
-	return []Fail{{strings.Join(cs, "+"), describe(p, o)}}
+	// several writers of one program can each run into a different reproduced defect; the outcome above was
+	// required to be exactly what the SET of classes produces, so every class is reported under its own signature
+	var fs []Fail
+	for _, c := range cs {
+		what := describe(p, o)
+		if len(cs) > 1 {
+			what = "(together with " + strings.Join(cs, ", ") + ") " + what
+		}
+		fs = append(fs, Fail{c, what})
+	}
+	return fs
 }
 
 var keyInErr = regexp.MustCompile(`with key (-?\d+)`)
@@ -425,7 +435,11 @@ func RecordWith(res *hx.Result, j Job, o *Outcome, check func(*Program, *Outcome
 		res.Count("oracle_failure." + f.Sig)
 		res.Fail(f.Sig, f.What, p)
 	}
-	if term := printer(p, o); Usable(o) && !j.NoModel && term != "" && term != "U5 ()" {
+	term := ""
+	if Usable(o) && len(o.W) == len(p.Writers) && !j.NoModel {
+		term = printer(p, o)
+	}
+	if term != "" && term != "U5 ()" {
 		res.AddCase(term, p)
 	} else {
 		res.Count("not_modelled")
